@@ -70,7 +70,19 @@ fn mutate(rng: &mut StdRng, s: &str, other: &str) -> String {
     let os: Vec<char> = other.chars().collect();
     let alphabet: Vec<char> = "()[]:=?$ cfghlamtv12x\u{e9}".chars().collect();
     if cs.is_empty() { return String::new(); }
-    match rng.gen_range(0..6) {
+    // slot names whose number does not fit the slot encoding (numeric: 4n, fresh form: 4n+1 in a u32)
+    const BIG: [&str; 8] = ["$1073741823", "$1073741824", "$4294967295", "$4294967296", "$f1073741700", "$f1073741824", "$f4294967295", "$99999999999999999999"];
+    match rng.gen_range(0..7) {
+        6 => {
+            // replace one `$name` by a huge one
+            let pos: Vec<usize> = cs.iter().enumerate().filter(|(_, c)| **c == '$').map(|(i, _)| i).collect();
+            if pos.is_empty() { return s.to_string(); }
+            let i = pos[rng.gen_range(0..pos.len())];
+            let mut j = i + 1;
+            while j < cs.len() && !" ()[]".contains(cs[j]) { j += 1; }
+            let big = BIG[rng.gen_range(0..BIG.len())];
+            cs[..i].iter().collect::<String>() + big + &cs[j..].iter().collect::<String>()
+        }
         0 => cs[..rng.gen_range(0..cs.len())].iter().collect(),                       // truncate
         1 => cs[rng.gen_range(0..cs.len())..].iter().collect(),                       // drop a prefix
         2 => { let i = rng.gen_range(0..cs.len()); let j = rng.gen_range(0..=os.len()); cs[..i].iter().chain(os[j..].iter()).collect() } // splice
